@@ -367,13 +367,28 @@ fn rewrite(case: &Value) -> Value {
             let Some(want) = r.as_u64() else { continue };
             let Some(nid) = g.node_ids().find(|&n| kidx(n) == want) else { continue };
             if g.node_degree_in(nid) == 1 && g.node_degree_out(nid) == 1 {
-                g.remove_intermediate_node(nid);
+                let prev = dump_graph(&g);
+                let res = std::panic::catch_unwind(std::panic::AssertUnwindSafe(|| g.remove_intermediate_node(nid)));
+                if let Err(e) = res {
+                    // the graph is in an unknown state after a panic inside the rewrite: stop here
+                    return json!({
+                        "before": before, "with_mb": with_mb, "mb_log": mb_log, "merge": mm, "after_mm": after_mm,
+                        "rm_log": rm_log, "rm_panic": { "node": want, "msg": hvcommon::panic_message(e), "graph": prev },
+                    });
+                }
                 rm_log.push(json!({ "node": want, "after": dump_graph(&g) }));
             }
         }
     }
     let before_elim = dump_graph(&g);
-    eliminate_extra_unions_tees(&mut g);
+    let res = std::panic::catch_unwind(std::panic::AssertUnwindSafe(|| eliminate_extra_unions_tees(&mut g)));
+    if let Err(e) = res {
+        return json!({
+            "before": before, "with_mb": with_mb, "mb_log": mb_log, "merge": mm, "after_mm": after_mm,
+            "rm_log": rm_log, "before_elim": before_elim,
+            "elim_panic": { "msg": hvcommon::panic_message(e), "graph": before_elim },
+        });
+    }
     let after_elim = dump_graph(&g);
     // partition + serde round trip, as the runtime does for its meta graph
     let rt = hvcommon::guarded(|| match partition_graph(g) {
